@@ -60,6 +60,18 @@ fn qi(q: PQ) -> usize {
 
 type PrefixMap = Option<Vec<Vec<String>>>; // indexed like PREFIXES
 
+/// what the SI prefixes mean (not asked from the library)
+fn own_factor(p: SIPrefix) -> f64 {
+    match p {
+        SIPrefix::Kilo => 1e3,
+        SIPrefix::Hecto => 1e2,
+        SIPrefix::Deca => 1e1,
+        SIPrefix::Deci => 1e-1,
+        SIPrefix::Centi => 1e-2,
+        SIPrefix::Milli => 1e-3,
+    }
+}
+
 fn prefix_map(m: &Option<enum_map::EnumMap<SIPrefix, Vec<String>>>) -> PrefixMap {
     m.as_ref().map(|em| PREFIXES.iter().map(|p| em[*p].clone()).collect())
 }
@@ -84,7 +96,7 @@ fn expand(u: &MUnit, names_p: &[Vec<String>], syms_p: &[Vec<String>]) -> Vec<MUn
             names: names_p[i].iter().flat_map(|p| u.names.iter().map(move |n| format!("{p}{n}"))).collect(),
             symbols: syms_p[i].iter().flat_map(|p| u.symbols.iter().map(move |n| format!("{p}{n}"))).collect(),
             aliases: vec![],
-            ratio: u.ratio * p.ratio(),
+            ratio: u.ratio * own_factor(*p),
             diff: u.diff,
             q: u.q,
             system: u.system,
